@@ -194,7 +194,8 @@ def literal(scanner: Scanner):
 
             # Skip escape character, if any
             scanner.eat(Chars.Backslash)
-            scanner.pos += 1
+            if not scanner.eof():
+                scanner.pos += 1
 
         # Do not throw if string is incomplete
         return True
